@@ -654,6 +654,8 @@ REF_FCN REF_STATUS ref_metric_interpolate(REF_INTERP ref_interp) {
     RSS(ref_cell_nodes(from_cell, donor_cell[donation], nodes),
         "node needs to be localized");
     for (ibary = 0; ibary < 4; ibary++)
+      for (im = 0; im < 6; im++) log_parent_m[ibary][im] = 0.0;
+    for (ibary = 0; ibary < ref_cell_node_per(from_cell); ibary++)
       RSS(ref_node_metric_get_log(from_node, nodes[ibary], log_parent_m[ibary]),
           "log(parentM)");
     for (im = 0; im < 6; im++) {
